@@ -33,6 +33,7 @@ def scan_function(fn: ast.AST, member_name: str, ordering_scope: bool, helpers=(
                 out.append(("extent-guessed-orientation", u(n)[:70], "whether a vector runs along the rows or the columns is decided by comparing its LENGTH with an extent of the block: both match when the block is square, and the vector is laid out the wrong way"))
     out += _int_only_value_tests(fn)
     out += _aliased_accumulators(fn)
+    out += _zero_replaced_quantities(fn)
     for n in ast.walk(fn):
         if isinstance(n, ast.BinOp) and isinstance(n.op, ast.FloorDiv):
             out.append(("floor-division", u(n)[:70], "weighted counts and bases are fractional: integer division truncates them"))
@@ -61,6 +62,37 @@ def scan_function(fn: ast.AST, member_name: str, ordering_scope: bool, helpers=(
                 out.append(("unordered", u(n.iter)[:70], "iteration order of a set is arbitrary: the order built from it is not the specified one"))
             if isinstance(n, ast.Call) and u(n.func) in ("list", "tuple", "np.array", "np.fromiter") and n.args and isinstance(n.args[0], ast.Call) and u(n.args[0].func) in ("set", "frozenset"):
                 out.append(("unordered", u(n)[:70], "a set turned into a sequence has arbitrary order"))
+    return out
+
+
+def _zero_replaced_quantities(fn: ast.AST) -> List[Tuple[str, str, str]]:
+    """`base or 1.0`, `total or np.nan`: a base / margin / count / total of exactly ZERO is a value (the quotient by it is
+    undefined, NaN) - `or` replaces it by the stand-in and the measure reports a number (0 / 1 = 0.0) where it is
+    undefined.  (A None test is spelled `is None`.)"""
+    from .stmts import resolver
+
+    res = None
+    out = []
+    WORDS = ("base", "margin", "count", "total", "weighted_n", "denominator")
+    for n in ast.walk(fn):
+        if not (isinstance(n, ast.BoolOp) and isinstance(n.op, ast.Or) and len(n.values) == 2):
+            continue
+        a, b = n.values
+        number = (isinstance(b, ast.Constant) and isinstance(b.value, (int, float)) and not isinstance(b.value, bool)) or u(b) in ("np.nan", "np.inf", "float('nan')")
+        if not number:
+            continue
+        if res is None:
+            res = resolver(fn, multi=True)
+        try:
+            vals = res(a)
+        except Exception:
+            vals = [a]
+        texts = [u(v) for v in vals] + [u(a)]
+        # a dict lookup (`spec.get("window") or 2`) is a question about presence, not a measured quantity
+        if any(".get(" in t for t in texts):
+            continue
+        if any(w in t.lower() for t in texts for w in WORDS):
+            out.append(("zero-replaced-quantity", u(n)[:70], "a base / total of exactly zero is a value: `or` swaps it for the stand-in, and the quotient reports a number where it is undefined"))
     return out
 
 
@@ -250,6 +282,7 @@ def columns_scale_median_margin(self, c):
     return np.nan_to_num(c).astype("int64"), sorted(set(c)), c is None
 
 def pad(self, elements):
+    share = self._counts / (self._table_base or 1.0)
     a = b = [0] * len(elements)
     a[0], c = 1, 2
     b[0] = 2
